@@ -71,6 +71,16 @@ class BuiltinMixin:
             raise OutOfSubset('ite on %r / %r' % (a[1], a[2]))
         return m
 
+    def bi_key_at(self, a, kw, st, node):
+        """spec: key_at(d, j) -- the j-th key of a dict / set in iteration order"""
+        v = self.lift(a[0])
+        if isinstance(v, SV) and v.t.kind in ('dict', 'set'):
+            v = unpack(st, v.e, v.t)
+        c = st.store[v.id]
+        if not isinstance(c, (DictC, SetC)):
+            raise SpecError('key_at on %r' % (v,))
+        return unpack(st, z3.Select(c.keys, self.num(a[1], st, node)[0]), c.t.args[0])
+
     def bi_mapset(self, a, kw, st, node):
         m = a[0]
         return SV(m.t, z3.Store(m.e, pack(st, self.lift(a[1]), m.t.args[0]), pack(st, self.lift(a[2]), m.t.args[1])))
